@@ -1,5 +1,10 @@
 package main
 
-func instrument(sp *spec, repo, dir string, repl map[string]string) {}
+import (
+	"go/ast"
+	"go/token"
+)
+
+func schedRewrite(fset *token.FileSet, f *ast.File) error { return nil }
 
 func selftest(args []string) {}
